@@ -23,7 +23,7 @@ Global rewrite rules R1..R9 are documented in DESIGN.md 2.2; every application i
 counted and the before/after text of every extracted function is kept so the
 evidence can show that the verified text is the code that runs.
 """
-import re, difflib
+import re, difflib, os
 from rustlex import mask, find_fn, find_impl_block, find_item, loops_in, match_close, LexError
 
 
@@ -39,6 +39,12 @@ class Unsupported(Exception):
 # Each rule: (id, compiled regex, replacement, description).  Applied to the
 # *masked-safe* body text (we only rewrite where the masked text matches too).
 RULES = [
+    ('R7', re.compile(r'(\b\w+\[[^\]]+\])\s*\.try_into\(\)\s*\.(?:expect\("[^"]*"\)|unwrap\(\))'), r'v_slice_to_array(&\1)',
+     'slice[a..b].try_into().unwrap()/expect(..) -> v_slice_to_array(&slice[a..b]) (requires len == N: the implicit panic becomes a proved precondition)'),
+    ('R7', re.compile(r'\b(payload|bytes|buf|body)\s*\.try_into\(\)\s*\.(?:expect\("[^"]*"\)|unwrap\(\))'), r'v_slice_to_array(\1)',
+     'slice.try_into().unwrap() -> v_slice_to_array(slice)'),
+    ('R7', re.compile(r'(\b\w+\[[^\]]+\])\.to_vec\(\)'), r'v_slice_to_vec(&\1)', 'slice[a..b].to_vec() -> v_slice_to_vec(&slice[a..b])'),
+    ('R10', re.compile(r'\|_\|'), r'|_e|', 'closure parameter `_` -> `_e` (Verus rejects `_` closure params)'),
     ('R2', re.compile(r'\b(u16|u32|u64|i64|i32)::from_(le|be)_bytes\('), r'v_\1_from_\2_bytes(',
      'T::from_xx_bytes(e) -> trusted wrapper with vstd::bytes spec'),
     ('R2', re.compile(r'\bf64::from_(le|be)_bytes\('), r'v_f64_from_\1_bytes(',
@@ -321,7 +327,11 @@ def parse_template(text):
     while i < len(lines):
         ln = lines[i]
         s = ln.strip()
-        if s.startswith('//@item '):
+        if s.startswith('//@include '):
+            inc = open(os.path.join(os.path.dirname(os.path.abspath(__file__)), '..', 'verus', s.split()[1])).read()
+            out.extend(parse_template(inc))
+            i += 1
+        elif s.startswith('//@item '):
             parts = s.split()
             out.append(('item', dict(file=parts[1], kind=parts[2], name=parts[3])))
             i += 1
